@@ -103,6 +103,41 @@ def direct_focus(cases, rep, ob):
     return bodies, meta, failed, errors
 
 
+def combine(*parts):
+    st, fl, er = {}, [], []
+    for a, b, c in parts:
+        st.update(a); fl.extend(b); er.extend(c)
+    return st, fl, er
+
+
+def sparql_focus(cases, limit):
+    """Shape.focus_nodes_sparql (the target query of sparql_mode) against Shape.focus_nodes, with rdflib's two listed engine
+    defects (C07-rdflib-leftjoin-after-values, C07-rdflib-mulpath-truthiness) corrected in-process: the target semantics
+    is the same in both modes"""
+    from pyshacl.shapes_graph import ShapesGraph
+    from .c07 import rdflib_leftjoin_patched, rdflib_mulpath_patched
+    fails, n = [], 0
+    with rdflib_leftjoin_patched() as pl, rdflib_mulpath_patched() as pt:
+        if not (pl.applied and pt.applied):
+            return {"sparql_focus_cases": 0, "sparql_focus_skipped": "rdflib source changed: corrections not applicable"}, [], []
+        for c in cases[:limit]:
+            sgo = ShapesGraph(c["sg"])
+            for sh in sgo.shapes:
+                try:
+                    mem = set(sh.focus_nodes(c["data"]))
+                    spq = set(sh.focus_nodes_sparql(c["data"]))
+                except Exception as e:
+                    fails.append({"what": "Shape.focus_nodes_sparql raised %s: %s" % (type(e).__name__, str(e)[:200]), "shape": sh.node.n3(),
+                                  "shapes_ttl": c["sg"].serialize(format="turtle"), "data_nt": sorted(" ".join(x.n3() for x in t) for t in c["data"])})
+                    continue
+                n += 1
+                if mem != spq and len(fails) < 6:
+                    fails.append({"what": "the target query of sparql_mode selects other focus nodes than the in-memory target resolution", "shape": sh.node.n3(),
+                                  "only_in_memory": sorted(x.n3() for x in mem - spq), "only_sparql": sorted(x.n3() for x in spq - mem),
+                                  "shapes_ttl": c["sg"].serialize(format="turtle"), "data_nt": sorted(" ".join(x.n3() for x in t) for t in c["data"])})
+    return {"sparql_focus_cases": n}, fails, []
+
+
 def main(tier, seed, replay=None):
     rng = F.rng_for(seed, PROP)
     cases = [gen_case(rng) for _ in range(350 if tier == "quick" else 6000)]
@@ -121,9 +156,10 @@ def main(tier, seed, replay=None):
 
     return EC.standard_main(
         PROP, ["Props/C02.v"], tier, seed, cases,
-        rule="case = 1-4 shapes with 0-3 declarations of each of the five target kinds (implicit class targets through rdfs:Class, owl:Class and one- and two-step metaclasses; explicitly or implicitly typed shapes) x data with subclass chains, cycles, diamonds, literal and blank-node objects, absent target nodes; each shape carries sh:in () so sh:focusNode enumerates the focus set; validate() compared with the model end to end and Shape.focus_nodes compared with the model's focus_nodes directly; Tie A for closure.py: transitive_subjects / transitive_objects on random chains (up to 1500 long in the thorough tier), diamonds, cycles and random graphs = interpreter run of the generated programs (exact list, rdflib's neighbour order) = independent reachability = the same triples in 3 other insertion orders",
+        rule="case = 1-4 shapes with 0-3 declarations of each of the five target kinds (implicit class targets through rdfs:Class, owl:Class and one- and two-step metaclasses; explicitly or implicitly typed shapes) x data with subclass chains, cycles, diamonds, literal and blank-node objects, absent target nodes; each shape carries sh:in () so sh:focusNode enumerates the focus set; validate() compared with the model end to end and Shape.focus_nodes compared with the model's focus_nodes directly; Tie A for closure.py: transitive_subjects / transitive_objects on random chains (up to 1500 long in the thorough tier), diamonds, cycles and random graphs = interpreter run of the generated programs (exact list, rdflib's neighbour order) = independent reachability = the same triples in 3 other insertion orders; sparql_mode: Shape.focus_nodes_sparql = Shape.focus_nodes for every shape (rdflib's two listed engine defects corrected in-process)",
         what="focus nodes differ from the target semantics (model, Props.C02)",
         metamorphic=meta_and_direct, translators=["t4"],
-        extra_checks=lambda: CC.run(F.rng_for(seed, PROP + "/closure"), 120 if tier == "quick" else 1500, big=tier != "quick"),
+        extra_checks=lambda: combine(CC.run(F.rng_for(seed, PROP + "/closure"), 120 if tier == "quick" else 1500, big=tier != "quick"),
+                                     sparql_focus(cases, 200 if tier == "quick" else 2500)),
         extra_assumptions=["translator/t4.py (fail-closed translation of pyshacl/rdfutil/closure.py into the work-list language of coq/Closure/Worklist.v; rdflib's Graph.subjects / Graph.objects are taken to enumerate exactly the matching triples' terms, each once, in some order)"],
     )
